@@ -260,7 +260,21 @@ L2 == {P(7, a, an) : a \in ArgLists(Q1), an \in AnnB} \cup {S(a) : a \in ArgList
 Q2 == {one, S(<<S(<<>>)>>), P(7, <<P(7, <<one>>, <<A1>>), S(<<>>)>>, <<>>), P(5, <<S(<<one, I(TRUE, <<0, 1>>)>>)>>, <<A1>>),
        P(9, <<P(7, <<one, one, one>>, <<A2>>)>>, <<>>)}
 L3 == {P(7, a, an) : a \in ArgLists(Q2), an \in AnnB} \cup {S(a) : a \in ArgLists(Q2)}
-Universe == L1 \cup L2 \cup (IF Depth >= 3 THEN L3 ELSE {})
+\* wide and deep trees, far beyond the enumerated sizes: hundreds of siblings of each leaf kind, length fields above 255, nesting of 300, annotation fields
+\* longer than 255 bytes made of annotations that are each within the protocol's per-annotation limit
+Wide == FALSE         \* overridden by the C05 configuration (Wide <- WideV)
+Rep(k, x) == [j \in 1..k |-> x]
+Ann(k, c) == <<37>> \o Rep(k - 1, 97 + c)
+RECURSIVE NestS(_), NestP(_)
+NestS(k) == IF k = 0 THEN one ELSE S(<<NestS(k - 1)>>)
+NestP(k) == IF k = 0 THEN <<"bytes", <<1>>>> ELSE P(5, <<NestP(k - 1)>>, <<>>)
+WideU == IF ~Wide THEN {} ELSE
+  { S([j \in 1..300 |-> <<"bytes", <<j % 256>>>>]), S([j \in 1..300 |-> I(j % 2 = 0, <<1 + (j % 255)>>)]), S([j \in 1..300 |-> <<"string", <<97 + (j % 26)>>>>]),
+    S(Rep(300, P(7, <<>>, <<>>))), P(7, Rep(300, <<"bytes", <<>>>>), <<>>), NestS(300), NestP(300),
+    <<"bytes", [j \in 1..300 |-> j % 256]>>, <<"string", [j \in 1..300 |-> 97 + (j % 26)]>>,
+    P(7, <<one>>, <<Ann(70, 1), Ann(70, 2), Ann(70, 3), Ann(70, 4)>>), P(7, <<one, one>>, <<Ann(128, 1), Ann(128, 2)>>), P(7, <<>>, <<Ann(255, 1)>>),
+    P(7, <<one, one, one>>, <<Ann(127, 1), Ann(127, 2)>>), P(0, <<>>, <<Ann(255, 1), Ann(255, 2)>>) }
+Universe == L1 \cup L2 \cup (IF Depth >= 3 THEN L3 ELSE {}) \cup WideU
 
 \* constant-level table, evaluated once by TLC
 AllForged == {<<n, Forge(n)>> : n \in Universe}
@@ -272,7 +286,14 @@ Init == node \in Universe /\ bytes = <<>> /\ dec = None /\ muts = {} /\ pc = "en
 Encode == pc = "encode" /\ bytes' = Forge(node) /\ pc' = "decode" /\ UNCHANGED <<node, dec, muts>>
 Decode == pc = "decode" /\ dec' = Unforge(bytes) /\ pc' = "mutate" /\ UNCHANGED <<node, bytes, muts>>
 \* exported as <<class, detail, patch, verdict>>; the byte string itself is ApplyPatch(bytes, patch)
-Mutate == pc = "mutate" /\ muts' = {<<m[1], m[2], Patch(bytes, m[3]), Unforge(m[3])>> : m \in Mutants(node, bytes)}
+\* the wide trees get the perturbations whose number does not grow with the tree
+LightMutants(n, b) ==
+  LET L == Len(b) IN
+  {<<"trunc", k, SubSeq(b, 1, k)>> : k \in {L - 1, L - 2, L \div 2}}
+  \cup {<<"extend", x, b \o <<x>>>> : x \in {0, 255}}
+  \cup {<<"toptag", t, SetByte(b, 1, t)>> : t \in {11, 255}}
+Mutants2(n, b) == IF n \in WideU THEN LightMutants(n, b) ELSE Mutants(n, b)
+Mutate == pc = "mutate" /\ muts' = {<<m[1], m[2], Patch(bytes, m[3]), Unforge(m[3])>> : m \in Mutants2(node, bytes)}
           /\ pc' = "done" /\ UNCHANGED <<node, bytes, dec>>
 Next == Encode \/ Decode \/ Mutate
 Spec == Init /\ [][Next]_vars
@@ -286,7 +307,7 @@ Strict == pc = "done" => \A m \in muts : m[1] \in StrictClasses => ~m[4][1]
 \* whatever else the decoder accepts is the encoding of what it returns, unless it is one of the relaxed forms
 Canon == pc = "done" => \A m \in muts : m[4][1] => (Forge(m[4][2]) = ApplyPatch(bytes, m[3])) = ~m[4][3]
 \* the compact export loses nothing
-PatchOK == pc = "mutate" => \A m \in Mutants(node, bytes) : ApplyPatch(bytes, Patch(bytes, m[3])) = m[3]
+PatchOK == pc = "mutate" => \A m \in Mutants2(node, bytes) : ApplyPatch(bytes, Patch(bytes, m[3])) = m[3]
 \* vacuity guards: the perturbation classes are inhabited, some perturbed inputs are accepted
 TypeOK == pc = "done" => muts # {}
 =============================================================================
